@@ -30,6 +30,6 @@ s = open(path).read()
 mt = re.search(r"(\| change \| property \|[^\n]*\n\|---[^\n]*\n)((?:\|[^\n]*\n)+)", s)
 s = s[: mt.start(2)] + "\n".join(rows) + "\n" + s[mt.end(2):]
 nex = sum(1 for n in os.listdir(os.path.join(root, "seeded")) if json.load(open(os.path.join(root, "seeded", n, "meta.json"))).get("excluded"))
-s = re.sub(r"\(all \d+ [^)]*as of this writing[^)]*\)", f"(all {len(rows) - nex} that a sanitizer-clean caller can trigger are detected by the quick tier as of this writing; {nex} kept for the record but excluded, see its meta.json)", s)
+s = re.sub(r"\(all \d+ [^)]*as of this writing[^)]*\)", f"(all {len(rows) - nex} that a well-behaved caller within the property's quantifier can trigger are detected by the quick tier as of this writing; {nex} kept for the record but excluded, see their meta.json)", s)
 open(path, "w").write(s)
 print(len(rows), "rows;", counts)
